@@ -874,6 +874,8 @@ def backend_checks(ld, r, tier, prop):
                             variants.append(('parmap', lambda: src.map(fn, num_workers=w, buffer_size=b, backend=be)))
                         if thread:
                             # the single-thread path of the same call, value and key iteration
+                            variants.append(('prefetch.copy', lambda: src.map(fn).prefetch(w, b, backend=be, catch_filter_exception=catch).copy()))
+                            variants.append(('prefetch(1).copy(freeze)', lambda: src.map(fn).prefetch(1, b, catch_filter_exception=catch).map(_ident_e).copy(freeze=True)))
                             variants.append(('prefetch(1)', lambda: src.map(fn).prefetch(1, b, catch_filter_exception=catch)))
                             variants.append(('prefetch(1).items', lambda: src.map(fn).prefetch(1, b, catch_filter_exception=catch).items()))
                             if not catch:
@@ -916,6 +918,10 @@ def backend_checks(ld, r, tier, prop):
                             except Exception as e:
                                 fails.append(f'backend {be} w={w} b={b} n={n}: len / items raised {type(e).__name__}: {e}')
     return fails, runs
+
+
+def _ident_e(x):
+    return x
 
 
 def _keep_odd(x):
@@ -968,6 +974,16 @@ def shape_checks(ld, r, tier):
                             return ('err', type(e).__name__)
                     variants = [('map(num_workers).values', lambda: base.map(fn), lambda: base.map(fn, num_workers=w, buffer_size=b, backend=be)),
                                 ('map(num_workers).items', lambda: base.map(fn).items(), lambda: base.map(fn, num_workers=w, buffer_size=b, backend=be).items())]
+                    if be == 't' and shape == 'plain':
+                        # consumers that work on a frozen copy of their input (catch, multi-worker prefetch) above a parallel map above a
+                        # per-epoch reshuffle: same seed on both sides
+                        import numpy as _np
+                        sd = r.randint(0, 10 ** 6)
+                        variants.append(('reshuffle.map(num_workers).catch', lambda: src.shuffle(True, rng=_np.random.RandomState(sd)).map(fn).catch(),
+                                         lambda: src.shuffle(True, rng=_np.random.RandomState(sd)).map(fn, num_workers=w, buffer_size=b, backend=be).catch()))
+                        variants.append(('reshuffle.map(num_workers).prefetch', lambda: src.shuffle(True, rng=_np.random.RandomState(sd)).map(fn).prefetch(2, 2),
+                                         lambda: src.shuffle(True, rng=_np.random.RandomState(sd)).map(fn, num_workers=w, buffer_size=b, backend=be).prefetch(2, 2)))
+                        variants.append(('map(num_workers).copy', lambda: base.map(fn), lambda: base.map(fn, num_workers=w, buffer_size=b, backend=be).copy(freeze=True)))
                     if base.indexable and shape != 'cycle':
                         variants.append(('prefetch.values', lambda: base.map(fn), lambda: base.map(fn).prefetch(w, b, backend=be)))
                     if be == 't':
